@@ -391,6 +391,11 @@ Linear_System<Row>::remove_space_dimensions(const Variables_Set& vars) {
 
   space_dimension_ -= vars.size();
 
+  // The relative order of the rows depends on the removed coefficients too.
+  if (sorted && !check_sorted()) {
+    sorted = false;
+  }
+
   PPL_ASSERT(OK());
 }
 
